@@ -239,10 +239,47 @@ fn c03_cfg(ctx: &Ctx) -> CaseCfg {
       exclude,
       ..GenCfg::default()
     },
-    hot_kinds: vec![HotKind::Harness],
+    // a third of the hot inputs is one of the crate's own subjects
+    hot_kinds: vec![
+      HotKind::Harness,
+      HotKind::Harness,
+      HotKind::Harness,
+      HotKind::Harness,
+      HotKind::Subject,
+      HotKind::Behavior(7),
+      HotKind::Replay,
+      HotKind::Async,
+    ],
     hot_script: 5,
     ..CaseCfg::default()
   }
+}
+
+/// A subject serves several observers in an order nothing specifies (HashMap), the harness
+/// source and the reference in subscription order: a subject that the pipeline subscribes
+/// more than once is replaced by the harness kind.
+fn single_reference_subjects(mut c: SeqCase) -> SeqCase {
+  let mut refs = vec![0usize; c.case.hots.len()];
+  c.case.root.walk(&mut |n| {
+    if let Node::Src(_, Src::Hot(i)) = n {
+      if *i < refs.len() {
+        refs[*i] += 1;
+      }
+    }
+    if let Node::ReadySetGo(i, _, _) = n {
+      if *i < refs.len() {
+        refs[*i] += 2;
+      }
+    }
+  });
+  // inner tables of flat_map / on_error_resume_next are instantiated once per outer item
+  let nested = c.case.root.has_op(&|n| matches!(n, Node::FlatMap(_, _) | Node::Resume(_, _) | Node::Un(Op::Retry(_), _) | Node::Un(Op::RetryWhen(_), _)));
+  for (i, k) in c.case.hots.iter_mut().enumerate() {
+    if *k != HotKind::Harness && (refs[i] != 1 || nested) {
+      *k = HotKind::Harness;
+    }
+  }
+  c
 }
 
 fn has_comb(n: &Node) -> bool {
@@ -252,6 +289,11 @@ fn has_comb(n: &Node) -> bool {
 pub(crate) fn c03_check(_ctx: &Ctx, c: &SeqCase) -> Report {
   let out = diff(c, DiffOpts::default());
   let mut rep = out.rep;
+  for k in &c.case.hots {
+    if *k != HotKind::Harness {
+      rep.classes.push(format!("hot-input:{:?}", k).split('(').next().unwrap().to_string());
+    }
+  }
   // non-trivial: a combining operator with >= 2 inputs of which the driver order switches
   // hot source at least once, or mixed hot / cold inputs
   let hot_ids = c.case.root.hot_ids();
@@ -840,7 +882,7 @@ pub fn properties() -> Vec<Property> {
       rule: "cases = pipelines with merge / concat / zip / combine_latest / amb / take_until / skip_until / sample / flat_map nested with single-source operators over 0..3 hot sources (scripts interleaved by a generated order) and cold sources; oracle = exact trace equality with the reference; non-trivial = a combining operator is present and the driver order switches hot source at least once or hot and cold inputs are mixed; switch_on_next: two hot inputs, histories whose outcome no bookkeeping order can change (source items, the target's first item, a mix of both, the target's terminal), expected trace computed from the history",
       assumptions: vec!["inputs are subscribed left to right, triggers first (as the crate does)", "trigger errors / completions have no effect (RxJS reading)"],
       subs: vec![
-        mk_sub("combine", (1500, 30_000), |ctx| seq_strategy(c03_cfg(ctx)), c03_check),
+        mk_sub("combine", (1500, 30_000), |ctx| seq_strategy(c03_cfg(ctx)).prop_map(single_reference_subjects).boxed(), c03_check),
         mk_sub("sequence_equal", (500, 10_000), c03_seq_eq_strategy, c03_seq_eq_check),
         mk_sub("ready_set_go", (300, 5_000), c03_rsg_strategy, c03_rsg_check),
         mk_sub("switch_on_next", (300, 5_000), c03_switch_strategy, c03_switch_check),
